@@ -1110,11 +1110,15 @@ func (p *parser) parseSignalType() (*SignalType, *SignalTypeRef, error) {
 		}
 		sigTypeRef.SignalName = sigName
 
+		if err := p.expectPunct(punctColon); err != nil {
+			return nil, nil, err
+		}
+
 		t = p.scan()
 		if !t.isIdent() {
 			return nil, nil, p.errorf("expected signal type name")
 		}
-		sigType.TypeName = t.value
+		sigTypeRef.TypeName = t.value
 
 		if err := p.expectPunct(punctSemicolon); err != nil {
 			return nil, nil, err
